@@ -300,6 +300,11 @@ func setStr(m map[string]bool) string {
 }
 
 func ruleP1(p *Prog, r *Report, eng *Engine) {
+	ruleP1x(p, r, eng)
+}
+
+// ruleP1x is ruleP1; it also hands back the consumption summaries it computed (nil when its anchors are missing).
+func ruleP1x(p *Prog, r *Report, eng *Engine) (pinfo *parserInfo, pfuncs []*ssa.Function) {
 	r.Rule("P1", "necessary", 3, "precedence layering: the function that builds an OR node takes its left operand from a sub-parser that cannot consume OR outside parentheses; the function that builds an AND node takes both operands from sub-parsers that cannot consume OR outside parentheses; operands are the results of those calls in source order; the parenthesis parser returns exactly its inner result")
 	pi := &parserInfo{p: p, consumes: map[*ssa.Call]bool{}}
 	pi.parseOp = p.Func(p.ExpPkg, "(*tokenStream).parseOperator")
@@ -314,6 +319,8 @@ func ruleP1(p *Prog, r *Report, eng *Engine) {
 		}
 	}
 	pi.computeOps0(funcs)
+	pinfo, pfuncs = pi, funcs
+	treeMeaning := r.Property != "C05" // see "a constructor hands back the node it builds" below
 	ops := map[string]string{}
 	for _, f := range funcs {
 		ops[f.Name()] = setStr(pi.ops0[f])
@@ -377,6 +384,9 @@ func ruleP1(p *Prog, r *Report, eng *Engine) {
 				}
 			}
 		}
+		if treeMeaning {
+			probs = append(probs, operandReturnedAlone(p, f, rt, l, rt)...)
+		}
 		if !between && (conj == "and" || conj == "or") {
 			probs = append(probs, fmt.Sprintf("no successful parseOperator(%q) lies between parsing the left and the right operand", wantOp))
 		}
@@ -421,6 +431,25 @@ func ruleP1(p *Prog, r *Report, eng *Engine) {
 						}
 					}
 				}
+			}
+		}
+	}
+	// a constructor hands back the node it builds: an operand returned alone drops the other operand.  This is
+	// about the tree's meaning (C01, C10), not about which strings are accepted: C05 does not ask it.
+	if treeMeaning {
+		var cs []*ssa.Function
+		for g := range ctors {
+			cs = append(cs, g)
+		}
+		sort.Slice(cs, func(i, j int) bool { return cs[i].Pos() < cs[j].Pos() })
+		for _, g := range cs {
+			m := ctors[g]
+			a, b := ssa.Value(g.Params[m["left"]]), ssa.Value(g.Params[m["right"]])
+			key := p.shortKey(g) + "|returns the node it builds"
+			if probs := operandReturnedAlone(p, g, nil, a, b); len(probs) > 0 {
+				r.Bad("P1", key, p.pos(g.Pos()), strings.Join(probs, "; "))
+			} else {
+				r.OK("P1", key, p.pos(g.Pos()), "no operand returned alone", "", true)
 			}
 		}
 	}
@@ -547,6 +576,106 @@ func ruleP1(p *Prog, r *Report, eng *Engine) {
 			r.Bad("P1", key, p.pos(f.Pos()), strings.Join(probs, "; "))
 		} else {
 			r.OK("P1", key, p.pos(f.Pos()), "transparent", "returns the inner result after a matching close parenthesis", true)
+		}
+	}
+	return
+}
+
+// ruleG11 — one ':' per reference atom.  The grammar's only use of ':' is [DocumentRef-id ':'] LicenseRef-id, so
+// no accepted expression has two ':' inside one atom.  After a successful probe for ":" the code that runs
+// (the blocks entered only on success) must not probe for ":" again, nor call a parser function that can
+// itself consume ":" outside parentheses: either would accept DocumentRef-a:DocumentRef-b:LicenseRef-c.
+func ruleG11(p *Prog, r *Report, pi *parserInfo, funcs []*ssa.Function) {
+	r.Rule("G11", "necessary", 1, "one ':' per reference atom: the code that runs after a successful probe for the ':' operator neither probes for ':' again nor calls a parser function that can consume ':' (a document reference qualifies exactly one license reference)")
+	if pi == nil {
+		r.Unknown("G11", "anchor", "-", "unresolved anchor: parser consumption summaries (see P1)")
+		return
+	}
+	for _, f := range funcs {
+		for _, b := range f.Blocks {
+			for _, in := range b.Instrs {
+				c, ok := in.(*ssa.Call)
+				if !ok {
+					continue
+				}
+				if s, ok := pi.opConst(c); !ok || s != ":" || !pi.consuming(c) {
+					continue
+				}
+				key := p.shortKey(f) + "|after ':'"
+				edges := nonNilEdgeBlocks(c)
+				inRegion := func(x ssa.Instruction) bool {
+					if len(edges) == 0 {
+						// result not tested here: everything the probe's block dominates, after the probe
+						return x.Block() == b && blockOrder(x) > blockOrder(c) || x.Block() != b && b.Dominates(x.Block())
+					}
+					for _, e := range edges {
+						if e == x.Block() || e.Dominates(x.Block()) {
+							return true
+						}
+					}
+					return false
+				}
+				var probs []string
+				n := 0
+				for _, b2 := range f.Blocks {
+					for _, in2 := range b2.Instrs {
+						c2, ok := in2.(*ssa.Call)
+						if !ok || c2 == c || !inRegion(c2) {
+							continue
+						}
+						n++
+						if s2, ok := pi.opConst(c2); ok {
+							if s2 == ":" && pi.consuming(c2) {
+								probs = append(probs, fmt.Sprintf("%s: a second ':' is consumed", p.pos(c2.Pos())))
+							}
+							continue
+						}
+						callee := pi.calleeOf(c2)
+						if callee == nil || !p.InModule(callee) {
+							continue
+						}
+						if pi.ops0[callee][":"] {
+							probs = append(probs, fmt.Sprintf("%s: calls %s, which can itself consume ':' %s: DocumentRef-a:DocumentRef-b:LicenseRef-c would be accepted", p.pos(c2.Pos()), callee.Name(), setStr(pi.ops0[callee])))
+						}
+					}
+				}
+				// the probe must not be reached again from its own success edge (a loop over "DocumentRef-x :"
+				// prefixes), unless another operator has been consumed on the way
+				stop := map[*ssa.BasicBlock]bool{}
+				for _, b2 := range f.Blocks {
+					for _, in2 := range b2.Instrs {
+						if c2, ok := in2.(*ssa.Call); ok && c2 != c {
+							if s2, ok := pi.opConst(c2); ok && s2 != ":" {
+								for _, e := range nonNilEdgeBlocks(c2) {
+									stop[e] = true
+								}
+							}
+						}
+					}
+				}
+				if len(edges) > 0 {
+					seenB := map[*ssa.BasicBlock]bool{}
+					work := append([]*ssa.BasicBlock{}, edges...)
+					for len(work) > 0 {
+						x := work[len(work)-1]
+						work = work[:len(work)-1]
+						if seenB[x] || stop[x] {
+							continue
+						}
+						seenB[x] = true
+						if x == b {
+							probs = append(probs, "the probe for ':' is reached again from its own success (a loop accepts a chain of 'DocumentRef-x:' prefixes)")
+							break
+						}
+						work = append(work, x.Succs...)
+					}
+				}
+				if len(probs) > 0 {
+					r.Bad("G11", key, p.pos(c.Pos()), strings.Join(probs, "; "))
+				} else {
+					r.OK("G11", key, p.pos(c.Pos()), "single", fmt.Sprintf("%d calls run after the ':' is consumed; none can consume another ':'", n), true)
+				}
+			}
 		}
 	}
 }
@@ -807,4 +936,92 @@ func baseOpMatcher(p *Prog) *ssa.Function {
 		}
 	}
 	return nil
+}
+
+// operandReturnedAlone: returns of g that hand back operand a or b itself (instead of the node joining them).
+// With after != nil only returns that run after that instruction (both operands parsed) are looked at.  A
+// return of an operand is accepted under a guard that says the two operands are the same term: pointer
+// equality, or equality (==) of their canonical texts.
+func operandReturnedAlone(p *Prog, g *ssa.Function, after ssa.Instruction, a, b ssa.Value) []string {
+	var probs []string
+	sameTermGuard := func(blk *ssa.BasicBlock) bool {
+		for _, x := range g.Blocks {
+			ifi, ok := x.Instrs[len(x.Instrs)-1].(*ssa.If)
+			if !ok {
+				continue
+			}
+			bo, ok := ifi.Cond.(*ssa.BinOp)
+			if !ok || (bo.Op != token.EQL && bo.Op != token.NEQ) {
+				continue
+			}
+			side := x.Succs[0]
+			if bo.Op == token.NEQ {
+				side = x.Succs[1]
+			}
+			if !(side == blk || side.Dominates(blk)) || len(side.Preds) != 1 {
+				continue
+			}
+			if bo.X == a && bo.Y == b || bo.X == b && bo.Y == a {
+				return true
+			}
+			text := func(v ssa.Value) ssa.Value {
+				ld, ok := v.(*ssa.UnOp)
+				if !ok || ld.Op != token.MUL {
+					return nil
+				}
+				c, ok := ld.X.(*ssa.Call)
+				if !ok || c.Call.StaticCallee() == nil || c.Call.StaticCallee().Name() != "reconstructedLicenseString" || len(c.Call.Args) != 1 {
+					return nil
+				}
+				return c.Call.Args[0]
+			}
+			tx, ty := text(bo.X), text(bo.Y)
+			if tx != nil && ty != nil && (tx == a && ty == b || tx == b && ty == a) {
+				return true
+			}
+		}
+		return false
+	}
+	for _, blk := range g.Blocks {
+		ret, ok := blk.Instrs[len(blk.Instrs)-1].(*ssa.Return)
+		if !ok || len(ret.Results) == 0 {
+			continue
+		}
+		if after != nil {
+			ab := after.Block()
+			if !(ab == blk || ab.Dominates(blk)) {
+				continue
+			}
+		}
+		seen := map[ssa.Value]bool{}
+		var walk func(v ssa.Value, at *ssa.BasicBlock)
+		walk = func(v ssa.Value, at *ssa.BasicBlock) {
+			if seen[v] {
+				return
+			}
+			seen[v] = true
+			if ph, ok := v.(*ssa.Phi); ok {
+				for i, e := range ph.Edges {
+					walk(e, ph.Block().Preds[i])
+				}
+				return
+			}
+			if v != a && v != b {
+				return
+			}
+			if after != nil && !(after.Block() == at || after.Block().Dominates(at)) {
+				return
+			}
+			if sameTermGuard(at) {
+				return
+			}
+			which := "left"
+			if v == b {
+				which = "right"
+			}
+			probs = append(probs, fmt.Sprintf("%s: %s returns its %s operand alone: the other operand vanishes from the tree unless the two are the same term, and no guard says so (pointer equality or == of canonical texts)", p.pos(ret.Pos()), g.Name(), which))
+		}
+		walk(ret.Results[0], blk)
+	}
+	return probs
 }
